@@ -50,6 +50,8 @@ int choose(int n, const char* label = nullptr);  // explored data choice, 0..n-1
 void wait_until(const std::function<bool()>& pred);
 // generic blocking on an external (kernel) condition: disabled until ready() is true
 void block_until_ready(const std::function<bool()>& ready);
+// same, but also wakes when the virtual clock reaches deadline_ns (LLONG_MAX = never); returns ready()
+bool block_until_ready_timed(const std::function<bool()>& ready, long long deadline_ns);
 [[noreturn]] void fail(const char* props, const char* key, const char* msg);
 void check(bool cond, const char* props, const char* key, const char* msg);
 void note(const char* token);          // appended to this execution's outcome string
